@@ -111,7 +111,7 @@ fn word_check(word: [u8; 4], ev: &mut Ev) -> Outcome {
 }
 
 fn run(r: &Run) {
-    r.prop("fifo_split", r.tier.pick(6_000, 250_000), split_case, oracle);
+    r.prop("fifo_split", r.tier.pick(6_000, 150_000), split_case, oracle);
     match r.tier {
         Tier::Quick => {
             // every top byte x 512 low-3-byte values incl. the tag's, 0 and all-ones
